@@ -261,6 +261,11 @@ def wire_expect(info, frames, k):
 def run_wire(st: Stats, k: int, part: int, nparts: int, maxcuts: int):
     det = Determinism(first=2, every=293)
     base, info, frames = wire_exec(k, ())
+    if "stream" not in info:
+        st.violation("wire seam: no data exchange took place (authentication or first send failed)", {"kind": "wire", "packets": k, "cuts": []},
+                     "frames", str(base)[:200])
+        st.ev(("wire", k, "base"), exc_class(base), True)
+        return
     L = len(info["stream"])
     idx = 0
 
@@ -280,8 +285,8 @@ def run_wire(st: Stats, k: int, part: int, nparts: int, maxcuts: int):
             o2, _, _ = wire_exec(k, cuts, gap)
             det.check(str(out), str(o2), case)
         st.transitions += len(cuts) + 1
-        if out[0] != "ok":
-            st.violation(f"wire seam: send raised {exc_class(out)}", case, "frames", str(out[1]))
+        if out[0] != "ok" or "stream" not in info:
+            st.violation(f"wire seam: send raised {exc_class(out)}", case, "frames", str(out[1])[:200])
             st.ev(("wire", k, cuts), exc_class(out), True)
             continue
         r1, t1, r2 = out[1]
